@@ -137,11 +137,12 @@ func init() {
 		Runs: []RunDef{
 			{Fn: "H_visibility", Tier: "quick", Reach: []string{"end"}},
 			{Fn: "H_types", Tier: "quick", Reach: []string{"end"}},
+			{Fn: "H_types_ns", Tier: "quick", Reach: []string{"end"}},
 			{Fn: "H_abstract", Tier: "quick", Reach: []string{"end"}},
 		},
-		Rule:        rule + "; (7 member kinds x 3 modifiers) x (5 access sites) and (6 declared types x 9 runtime value kinds) x (3 boundaries) enumerated completely by solver-driven case split over one fixture family; the written payload is a symbolic int, so a denied write is shown to leave the member unchanged for every value; every attempt of H_abstract (instantiating an abstract / incomplete class) is made three times in one run, so a verdict cached after the first attempt is observed. The structural dimension is exhaustive enumeration executed through the engine; the universal (solver) part is payload independence",
+		Rule:        rule + "; (7 member kinds x 3 modifiers) x (6 access sites) and (6 declared types x 9 runtime value kinds) x (15 boundaries: typed property, static typed property through Class::/self::/static::, parameter and return value of functions, instance methods, static methods, constructors, closures and arrow functions) enumerated completely; H_types_ns: a type name declared in global code or in a namespace against objects of a same-named class of the other namespace (and of its subclass / of an implementor of a same-named interface) at the three basic boundaries by solver-driven case split over one fixture family; the written payload is a symbolic int, so a denied write is shown to leave the member unchanged for every value; every attempt of H_abstract (instantiating an abstract / incomplete class) is made three times in one run, so a verdict cached after the first attempt is observed. The structural dimension is exhaustive enumeration executed through the engine; the universal (solver) part is payload independence",
 		Assumptions: []string{"strict typing: a declared scalar type accepts exactly values of that type (no coercion)"},
-		Outside:     []string{"hierarchy-shape variation, enum/readonly, traits", "static:: / self:: access paths, __get/__set"},
+		Outside:     []string{"hierarchy-shape variation, enum/readonly, traits", "static:: / self:: visibility paths, __get/__set", "types written before the class they name is declared; promoted constructor properties"},
 	})
 
 	reg(Check{
@@ -150,11 +151,13 @@ func init() {
 		Runs: []RunDef{
 			{Fn: "H_iface_chain", Fuel: 30_000_000, Tier: "quick", Reach: []string{"end"}},
 			{Fn: "H_parent_chain", Fuel: 30_000_000, Tier: "quick", Reach: []string{"end"}},
+			{Fn: "H_like", Params: map[string]int{"small": 1}, Fuel: 30_000_000, Tier: "quickonly", Reach: []string{"end"}},
+			{Fn: "H_like", Params: map[string]int{"small": 0}, Fuel: 30_000_000, Tier: "thorough", Reach: []string{"end"}},
 			{Fn: "H_hierarchy", Params: map[string]int{"implbits": 16}, Fuel: 30_000_000, Tier: "quickonly", Reach: []string{"end"}},
 			{Fn: "H_hierarchy", Params: map[string]int{"implbits": 64}, Fuel: 30_000_000, Tier: "thorough", Reach: []string{"end"}},
 		},
-		Rule:    rule + "; the hierarchy is the quantified dimension: parent links of 3 classes (single inheritance), extends edge between 2 interfaces, implements matrix, override bits — every shape (quick: 768 with C0 implementing nothing, thorough: all 3072; H_iface_chain: 3 interfaces with every extends shape among them, incl. chains of depth 3; H_parent_chain: a 4-class chain where every class defines m() or inherits it and every definition continues with parent::m() or not, plus static::/self:: helpers) is assembled as script text, registered by the real class/interface parsers and checked for all (object, type) pairs (instanceof, typed parameter, catch) and all dispatch forms (virtual call, parent::, self::, static::, like) against reachability computed by a 15-line closure. No scalar dimension: the engine degenerates to exhaustive bounded enumeration here",
-		Outside: []string{"5 classes, 4 interfaces; instanceof/catch/like on the 4-class chain (dispatch only)", "like with more than 3 probe interfaces"},
+		Rule:    rule + "; the hierarchy is the quantified dimension: parent links of 3 classes (single inheritance), extends edge between 2 interfaces, implements matrix, override bits — every shape (quick: 768 with C0 implementing nothing, thorough: all 3072; H_iface_chain: 3 interfaces with every extends shape among them, incl. chains of depth 3; H_parent_chain: a 4-class chain where every class defines m() or inherits it and every definition continues with parent::m() or not, plus static::/self:: helpers; H_like: every parent shape of 3 classes x each class declaring m with 0/1/2 parameters or not at all x a second method n declared at one level x interface parameter count 0..2 x a nominal `implements` edge, `like` against every class and three interfaces, reference = parameter count of the nearest definition) is assembled as script text, registered by the real class/interface parsers and checked for all (object, type) pairs (instanceof, typed parameter, catch) and all dispatch forms (virtual call, parent::, self::, static::, like) against reachability computed by a 15-line closure. No scalar dimension: the engine degenerates to exhaustive bounded enumeration here",
+		Outside: []string{"5 classes, 4 interfaces; instanceof/catch/like on the 4-class chain (dispatch only)", "like: methods with more than 2 parameters, more than two methods per target, static methods"},
 	})
 
 	reg(Check{
